@@ -199,6 +199,7 @@ def run(ctx):
     ctx.ob(5, "K6", "failed work is exactly the results with failed() true", okf, f, fails[0] if fails else f.node, construct="failures = [r for r in results if r.failed()]",
            detail=f"{[stmt_text(n) for n in fails]}")
     # (5) retry job construction
+    sched.ob_retry_record_plain(ctx, 5)
     wq = [c for c in calls_named(f, "WaitingQueueJob")]
     for c in wq:
         lp = enclosing_for(c, f.node)
